@@ -110,6 +110,7 @@ def rules(ctx):
     ctx.rule('R02.13', "the receiving model is changed only by += / -= of penalty terms, the record helpers, nested "
                        "constraint methods and ancilla takes - never by update / item assignment / other operators", floor=8)
     ctx.rule('R02.14', "the constraint record is not shared between a model and its copies", floor=2)
+    ctx.rule('R02.15', "a relational method returns early only for lam == 0 or after a special-case penalty was merged", floor=6)
     ctx.rule('R02.12', "slack registers are sized from -X only where X <= 0 is forced, and the unary-slack "
                        "shortcut (X - sum of slack bits)^2 only where min X >= 0 is forced", floor=3)
 
@@ -208,9 +209,43 @@ def rules(ctx):
     merge_discipline(ctx, 'R02.13', list(meths.values()) + [P.func('_pcbo._special_constraints_eq_zero'),
                                                             P.func('_pcbo._special_constraints_le_zero')])
     record_not_shared(ctx, 'R02.14')
+    for rel, fn in meths.items():
+        early_exits(ctx, 'R02.15', fn)
 
 
 # =====================================================================
+def early_exits(ctx, rid, fn):
+    g = cfg_of(fn.node)
+    body = strip_docstring(fn.node.body)
+    last = body[-1] if body else None
+    bad = []
+    mn = mx = None
+    for n in walk_no_nested(body):
+        if isinstance(n, ast.Assign) and isinstance(n.value, ast.Call) and call_name(n.value) == '_get_bounds':
+            for t in n.targets:
+                if isinstance(t, ast.Tuple) and len(t.elts) == 2:
+                    mn, mx = src(t.elts[0]), src(t.elts[1])
+    allowed = {'lam', mn, mx, 'suppress_warnings', 'log_trick', 'bounds'}
+    for r in [n for n in g.stmts() if isinstance(n, ast.Return) and n is not last]:
+        # an early return may depend only on the weight, the bounds of P and the options (or follow a special-case
+        # penalty); a return decided by the model's state or by P itself skips the penalty for a constraint that needs one
+        names = set()
+        for t, pol, o in g.edge_dominators(r):
+            t2 = t
+            for c in ast.walk(t2):
+                if isinstance(c, ast.Call) and call_name(c) in ('_special_constraints_eq_zero', '_special_constraints_le_zero'):
+                    break
+            else:
+                names |= names_in(t2)
+        if names - allowed:
+            bad.append(r)
+    ctx.inst(rid, fn, 'early returns of %s' % fn.name, not bad,
+             "early returns only for lam == 0 / after a special-case penalty" if not bad else
+             "the early return at line %s is decided by %s, i.e. not only by the weight, the bounds of P and the options: "
+             "a constraint that needs a penalty is recorded (or skipped) without being enforced"
+             % (bad[0].lineno, [src(t)[:50] for t, pol, o in g.edge_dominators(bad[0])][-2:]))
+
+
 BAD_MERGE = {'update', 'clear', 'pop', 'popitem', 'setdefault', '__setitem__', '__delitem__', 'refresh', 'normalize',
              'simplify', 'set_mapping', 'set_reverse_mapping', '__init__'}
 
@@ -235,6 +270,15 @@ def merge_discipline(ctx, rid, fns):
                 for t in n.targets:
                     if isinstance(t, ast.Subscript) and is_name(t.value, X):
                         bad.append((n, "item deletion on the receiving model"))
+        # every merged penalty is scaled by the weight
+        for n in ast.walk(fn.node):
+            if isinstance(n, ast.AugAssign) and is_name(n.target, X) and isinstance(n.op, (ast.Add, ast.Sub)) \
+                    and 'lam' in fn.all_params:
+                v = n.value
+                has = any(is_name(m, 'lam') for m in ast.walk(v))
+                if not has:
+                    bad.append((n, "the merged penalty `%s` does not depend on the weight lam (a nested constraint call without "
+                                   "lam=lam uses the default weight 1)" % src(v)[:60]))
         ctx.inst(rid, fn, 'merge discipline of %s' % fn.qual, not bad,
                  "penalties only enter through += / -=" if not bad else
                  "%s (line %s): terms already on the model are overwritten / lost, so the added function is not the penalty"
